@@ -57,6 +57,14 @@ Definition crop_pad {A : Type} (zero : A) (n : nat) (x : list A) : list A :=
 Definition epoch_rows {A : Type} (d : A) (ts : list Z) (rows : list A) (s e : Z) : list A :=
   select d rows (restrict_idx ts [(s, e)]).
 
+(* vocabulary of the property's statement *)
+(* the samples inside the closed epoch [s, e], each with its own value *)
+Definition inside {A : Type} (ts : list Z) (vs : list A) (s e : Z) : list A :=
+  map snd (filter (fun tv => (s <=? fst tv) && (fst tv <=? e)) (combine ts vs)).
+(* the multipliers k reported, in increasing order: all of -(n//2) .. ceil(n/2)-1, or the non-negative ones *)
+Definition krange (full : bool) (n : nat) : list Z :=
+  if full then zrange (- Z.of_nat (n / 2)) n else zrange 0 ((n + 1) / 2).
+
 (* ---------------------------------------------------------------------------------------------- *)
 (* 2. _overlap_split and the slicing of compute_mean_power_spectral_density (ticks)                *)
 
@@ -142,6 +150,12 @@ Section OverField.
     fsum (map norm2 (dft x)) = ofnat (length x) * fsum (map sq x).
   Definition hermitian_at (x : list K) : Prop :=
     forall k, (0 < k < length x)%nat -> norm2 (nth (length x - k) (dft x) c0) = norm2 (nth k (dft x) c0).
+
+  (* DFT coefficient of (signed) index k of an n-point transform X *)
+  Definition coef (n : nat) (X : list cplx) (k : Z) : cplx := nth (Z.to_nat (k mod Z.of_nat n)) X c0.
+  (* the values of the samples inside each segment of _overlap_split *)
+  Definition chunks (ts : list Z) (vs : list K) (ep : iset) (L st : Z) : list (list K) :=
+    map (fun ab => inside ts vs (fst ab) (snd ab)) (overlap_split ep L st).
 
   (* np.fft.fft(values, n) and the optional division by the length *)
   Definition fft_values (norm : bool) (n : nat) (x : list K) : list cplx :=
